@@ -17,7 +17,7 @@ def call_rules(run, r_call, r_final, u):
     fns = vptr.vp_functions(mod)
     for kind in ("dynamic_vptr", "ctor_obj", "final"):
         for f in fns[kind]:
-            ok, bad = vptr.through_checked_hash(f, P)
+            ok, bad = vptr.through_checked_hash(f, P, mod)
             short = re.sub(r"yorel::yomm2::", "", irq.strip_ret(f.dname))[:150]
             run.instance(r_call, "%s: every path passes the checked hash" % short, f.where(), ok=ok)
             if not ok:
@@ -82,6 +82,8 @@ def check(run):
     run.rule(r1, "update-time class_map look-ups: run for every record, null-tested first, null -> unknown_class_error(looked-up id) + handler + abort", floor=9)
     run.rule(r2, "checked policies: dynamic_vptr, virtual_ptr's constructor (both branches) and final always pass the checked hash", floor=20)
     run.rule(r3, "final: dynamic != static type -> method_table_error carrying the dynamic id", floor=6)
+    r4 = "C15-abort"
+    run.rule(r4, "after the report of an unknown class / wrong final type no path continues to a table read: abort() follows the handler call", floor=6)
     for nd in ([True] if run.tier == "quick" else [True, False]):
         ast, _ = crules.unit(run, ndebug=nd)
         crules.lookup_rules(run, None, r1, ast)
@@ -89,6 +91,7 @@ def check(run):
         units = callpath.build_units(run, sorted(witness.CHECKED), ["r", "V", "X", "W", "sS", "rir"], ndebug=nd, tag="c15")
         for u in units:
             call_rules(run, r2, r3, u)
+            abort_rule(run, r4, u)
     run.assumptions += ["what the checked hash rejects (range + identity test against the control table) is decided by C05-checked; abort after the handler by C02-abort",
                         "policies with runtime_checks but without a type hash have no registration test at call time; the property is stated for the stock debug policy"]
     return run.finish(level="other", explanation="AST rules on the three update-time look-ups (null test, reported id, abort, control dependence) and IR path queries on every "
@@ -117,3 +120,16 @@ def lookups_unconditional(run, rule, ast):
                     run.instance(rule, "%s: the look-up of %s runs for every record" % (crules.short(f), d["name"]), (f["file"], sub[0]["l"]), ok=not bad)
                     for t in bad:
                         run.violation(rule, "compiler::%s|lookup-skipped" % f["name"].split("::")[-1], "the look-up (and null test) of %s is skipped depending on `%s`: an unregistered class in a skipped record goes unreported" % (d["name"], t), (f["file"], sub[0]["l"]))
+
+
+def abort_rule(run, rule, u):
+    from . import c02
+    from .. import path
+    mod = u["module"]
+    for f, call, kind in c02.handler_sites(mod):
+        if not re.search(r"checked_perfect_hash<.*>::hash_type_id|virtual_ptr<.*>::final<|compiler<.*>::augment_(classes|methods)", f.dname):
+            continue
+        ok, bad = path.after_call_reaches(f, call, lambda i: i.op in ("call", "invoke") and i.get("callee") == "abort")
+        run.instance(rule, "%s: abort after the report" % re.sub(r"yorel::yomm2::", "", irq.strip_ret(f.dname))[:140], call.where(), ok=ok)
+        if not ok:
+            run.violation(rule, "%s|no-abort" % c02.site_key(f), "after reporting the error, %s can return (line %s) and the caller goes on to read a table" % (f.dname[:140], bad.line), call.where())
